@@ -40,6 +40,12 @@ def gen_wear(rng, tier):
         L.append("P %d %d" % (sc.P_MAXBLK, rng.choice([1024, 2048, 4096, 32768])))
     if rng.random() < 0.2:
         L.append("P 1011 %d" % rng.choice([1, 2]))     # row match finder on / off
+    if rng.random() < 0.25:      # binary-tree finders with chainLog - 1 > hashLog: the correction must preserve the chain's cycle, not the hash table's
+        strat = rng.choice([6, 7]); L = [x for x in L if not x.startswith("P %d " % sc.P_HLOG) and not x.startswith("P %d " % sc.P_CLOG)]
+        hl = rng.choice([8, 10, 12]); L += ["P %d %d" % (sc.P_STRAT, strat), "P %d %d" % (sc.P_HLOG, hl), "P %d %d" % (sc.P_CLOG, hl + rng.choice([3, 4, 5]))]
+        if wlog < 14:
+            L[2] = "P %d %d" % (sc.P_WLOG, rng.choice([15, 17])); wlog = 15
+        slow = True
     budget = (600000 if slow else 6000000) if tier == "quick" else (1500000 if slow else 7500000)
     nfr = rng.choice([1, 2, 3, 5])
     per = budget // nfr
@@ -224,12 +230,14 @@ def run(tier):
                              ident="freq|%s" % (probes[bad["probe"]][0] if isinstance(bad.get("probe"), int) else "?"))
         else:
             ck.traces(1)
-    # ---- for real: more than 4 GiB through one context pair (thorough tier; quick runs one short of the knob-free path)
-    if tier != "quick":
+    # ---- for real: more than 4 GiB through one context (pair). quick: one context reused for > 4 GiB of frames (about 15 s);
+    # thorough: also single streams of 4.1-4.5 GiB
+    if True:
         exw = core.build_exe("weardrv", ["weardrv.c"], "opt")
-        for (gib10, lvl, wlog, ldm, w) in [(45, 1, 20, 0, 0), (41, 3, 22, 1, 0), (41, 1, 21, 1, 2), (42, -3, 17, 0, 0)]:
+        cfgs = [(41, 1, 0, 0, 0, "frames")] + ([(45, 1, 20, 0, 0, ""), (41, 3, 22, 1, 0, ""), (41, 1, 21, 1, 2, ""), (42, -3, 17, 0, 0, ""), (41, 3, 0, 0, 0, "frames")] if tier != "quick" else [])
+        for (gib10, lvl, wlog, ldm, w, mode) in cfgs:
             tp = os.path.join(od, "wear4g.ndjson")
-            rc, out = core.sh([exw, str(gib10), str(lvl), str(wlog), str(ldm), str(w), tp], timeout=3000)
+            rc, out = core.sh([exw, str(gib10), str(lvl), str(wlog), str(ldm), str(w), tp] + ([mode] if mode else []), timeout=3000)
             evs = core.read_ndjson(tp) if os.path.exists(tp) else []
             if rc != 0 or not evs:
                 rp = ck.replay_path("wear4g-%d-%d.txt" % (lvl, wlog), "weardrv %d %d %d %d %d\n%s" % (gib10, lvl, wlog, ldm, w, out[-500:]))
